@@ -147,9 +147,18 @@ Payload ==
         resj |-> WJ(t.res, renv, st.r, "canon")]
   ELSE IF st.kind = "bytes2"
   THEN LET r == Dec2(st.tn, st.b, 1, Len(st.b)) IN
-       [kind |-> "bytes2", tn |-> st.tn, b |-> st.b,
+       [kind |-> "bytes2", tn |-> st.tn, b |-> st.b, origin2 |-> TY(st.tn).origin2,
         dec2ok |-> r.ok,
         dec2consumed |-> IF r.ok THEN r.pos - 1 ELSE 0,
+        negzero |-> r.ok /\ HasNegZero(st.tn, r.v),
+        \* a TL1-declared type read from arbitrary TL2 bytes may hold what no TL1 value holds (an array
+        \* whose length disagrees with its size parameter, a masked field without its mask bit): how
+        \* writers treat such content is not specified, so only verdict and consumption are compared
+        dec2valid |-> r.ok /\ (TY(st.tn).origin2 \/ Valid1(st.tn, NoEnv, r.v)),
+        \* the decoded value is compared through TL1 for TL1-declared types (their hidden TL2 presence
+        \* bits are object state, not value: an empty object and an object with explicit empty fields
+        \* are the same value) and through TL2 for TL2-declared ones
+        dec2tl1 |-> IF r.ok /\ ~TY(st.tn).origin2 /\ Valid1(st.tn, NoEnv, r.v) THEN Bytes(Enc1(st.tn, NoEnv, r.v, TRUE)) ELSE <<>>,
         dec2re |-> IF r.ok THEN Enc2(st.tn, r.v, FALSE) ELSE <<>>]
   ELSE IF st.kind = "reenc"
   THEN [kind |-> "reenc", tn |-> st.tn, m |-> st.m, origin2 |-> TY(st.tn).origin2, negzero |-> HasNegZero(st.tn, st.v), badkey |-> HasBadKey(st.tn, st.v),
